@@ -12,7 +12,9 @@ CHECKS = {
              'one token past the first offending one) and checks NoDrop / LayoutErase / DeadStaysDead on the '
              'specification; every enumerated string and every single-token near miss of every accepted one is parsed by '
              'the real parser and the recorded outcome (class, tree, error position) is validated by TLC against '
-             'JaqalParse!Step folded over the tokens. Exhaustive inside the stated token-length bound, nothing beyond.',
+             'JaqalParse!Step folded over the tokens. Exhaustive inside the stated token-length bound; beyond it, every text that the '
+             'repository\'s own test suite hands to the parser (recorded by a pytest plugin of the harness, about 190 texts of up to 600 '
+             'characters) is lexed and parsed by the specification (JaqalLex + JaqalParse) and compared with the real lexer and parser.',
         note='Trusted: harness/render.py (tokens -> text with offsets), harness/c02.py conv (S-expression -> tree), '
              'TLC. Bounded: token strings of length <= 5 (quick) / 6 (thorough) over small alphabets.',
         design='5/C02', technique='TLA+ pushdown-parser spec, TLC enumeration replayed into the parser, TLC trace validation'),
